@@ -24,7 +24,7 @@ Ltac ifs := repeat match goal with |- context [if ?b then _ else _] => destruct 
 Lemma handle_deadeq s t o i :
   match handle fixed c s t o i with HRetry s' _ => dead s' = dead s | HDone _ _ _ => True end.
 Proof.
-  destruct o; cbn [handle]; unfold on_send_fail, on_busy, on_not_leader_hint, with_backoff; cbv zeta; auto;
+  destruct o; cbn [handle]; unfold on_send_fail, on_busy, on_not_leader_hint, with_backoff, backoff_then_region_err; cbv zeta; auto;
     ifs; auto; try (destruct (backoff _ _ _) as [s' e| |e] eqn:B; [apply backoff_deadeq in B|exact I|exact I]); auto; try (cbn in B; congruence).
 Qed.
 
